@@ -514,20 +514,14 @@ func (c *chroniclerV2) ensureWriter() error {
 		return nil
 	}
 
-	// Check if this is a new file (doesn't exist yet)
-	isNewFile := false
-	if _, err := os.Stat(c.hydFilePath); os.IsNotExist(err) {
-		isNewFile = true
-	}
-
 	var writer *v2.FileWriter
 	var err error
 
-	if isNewFile && c.swampName != "" {
-		// New file: use V3 format with name in header area
+	if c.swampName != "" {
+		// New file (or one that has to be started over after a crash): V3 format with
+		// the name in the header area. An existing file keeps its format (V2 or V3).
 		writer, err = v2.NewFileWriterWithName(c.hydFilePath, c.maxBlockSize, c.swampName)
 	} else {
-		// Existing file: preserve format (V2 or V3)
 		writer, err = v2.NewFileWriter(c.hydFilePath, c.maxBlockSize)
 	}
 	if err != nil {
